@@ -80,16 +80,15 @@ def splitFirst? (needle : Bytes) : Bytes → Option (Bytes × Bytes)
       | none => none
 
 /-- `strings.ReplaceAll(b, old, new)` for non-empty `old`: leftmost, non-overlapping.
-    (with fuel = length, because the recursion jumps over the match) -/
-def replaceAllAux (old new : Bytes) : Nat → Bytes → Bytes
-  | 0, b => b
-  | _ + 1, [] => []
-  | n + 1, c :: cs =>
-    match stripPrefix? old (c :: cs) with
-    | some rest => if old.isEmpty then c :: replaceAllAux old new n cs else new ++ replaceAllAux old new n rest
-    | none => c :: replaceAllAux old new n cs
+    Structural recursion: `skip` counts the characters of a match that are still to be passed over. -/
+def replaceAllAux (old new : Bytes) : (skip : Nat) → Bytes → Bytes
+  | _, [] => []
+  | k + 1, _ :: cs => replaceAllAux old new k cs
+  | 0, c :: cs =>
+    if old.isPrefixOf (c :: cs) && !old.isEmpty then new ++ replaceAllAux old new (old.length - 1) cs
+    else c :: replaceAllAux old new 0 cs
 
-def replaceAll (b old new : Bytes) : Bytes := replaceAllAux old new (b.length + 1) b
+def replaceAll (b old new : Bytes) : Bytes := replaceAllAux old new 0 b
 
 /-- prepend a character to the first line -/
 def consHead (c : Char) : List Bytes → List Bytes
